@@ -243,11 +243,12 @@ Definition init_state_gen (r : store) (shared : bool) : state :=
      vmem := []; vfiles := [] |}.
 Definition init_state (r : store) : state := init_state_gen r false.
 
-(* which of the recorded defects are repaired *)
+(* One flag per former defect.  /repo HEAD is [Repaired] (all three fixed); the other variants exist only
+   for the historical [_refuted] witnesses in Properties.v and are not part of the correspondence. *)
 Record variant := {
   v_persist_first : bool;   (* Commit writes the startup file before it swaps running (fixed in /repo 1761ed1) *)
   v_set_atomic : bool;      (* a Set that fails in convertValue leaves the candidate untouched (fixed in 61c97e1) *)
-  v_frr_restore : bool      (* a failed routing-daemon reload is followed by a reload of the running config *)
+  v_frr_restore : bool      (* a failed routing-daemon reload is followed by a reload of the running config (fixed in e792c74) *)
 }.
 Definition Repaired : variant := {| v_persist_first := true; v_set_atomic := true; v_frr_restore := true |}.
 Definition FrrDefect : variant := {| v_persist_first := true; v_set_atomic := true; v_frr_restore := false |}.
@@ -350,7 +351,7 @@ Definition set_store (var : variant) (s : store) (h : hspec) (p : path) (v : val
   | k => let s1 := add_conts s p (h_conts h) in
          match convert k v with
          | Some o => (set_leaf s1 p o, true)
-         | None => (if v_set_atomic var then s else s1, false)   (* today: containers were already created *)
+         | None => (if v_set_atomic var then s else s1, false)   (* before 61c97e1: containers were already created *)
          end
   end.
 
